@@ -240,90 +240,100 @@ def s_kind(F, res):
 
 
 def s_guard(F, res):
-    f = F.fn("tx3_resolver::safe_apply_args")
+    """On resolve_tx's body with the resolver crate's own helper functions inlined (the pass function excluded; Ok/Err returns of
+    helpers kept apart): the template's reported parameters are computed (find_params), a membership test of the argument map
+    is made for them, Error::MissingTxArg is built on a path that does not continue to apply_args, apply_args is dominated by
+    all of that, and the pass function runs only after apply_args.  No other apply_args call exists in the resolver."""
+    from .. import e8_state
+    lf, pfn = e8_state.resolver_roles(F)
+    f = e8_state.loop_body(F)
     cfg = mir.CFG(f)
     w = where(f)
-    key = f["path"]
+    key = lf + "|missing reported parameter is refused before arguments are applied"
     fp = [bi for bi, t in mir.calls(f) if call_matches(t, "tx3_tir::reduce::find_params")]
     aa = [bi for bi, t in mir.calls(f) if call_matches(t, "tx3_tir::reduce::apply_args") or is_trait_call(t, APPLY, "apply_args")]
-    ck = [bi for bi, t in mir.calls(f) if call_matches(t, "::contains_key") or "contains_key" in (t.get("callee") or "")]
-    nx = [bi for bi, t in mir.calls(f) if (t.get("trait") == "std::iter::Iterator" and t.get("method") == "next")]
-    missing = [bi for bi, si, s in mir.stmts(f) if s["rv"]["k"] == "agg" and s["rv"].get("adt") == "tx3_resolver::Error" and s["rv"]["variant"] == "MissingTxArg"]
+    passc = [bi for bi, t in mir.calls(f) if call_matches(t, pfn)]
+    # closures created in the (inlined) body: `params.iter().find(|(k, _)| !args.contains_key(k))`
+    clos = {}
+    for bi, si, st in mir.stmts(f):
+        if st["rv"]["k"] == "agg" and "closure" in st["rv"] and st["rv"]["closure"] in F.fns:
+            clos.setdefault(st["rv"]["closure"], bi)
+    MEMBER = ("contains_key", "contains", "get", "get_key_value")
+
+    def is_member(t):
+        n = (t.get("callee") or "").split("::")[-1]
+        return n in MEMBER and ("Map" in (t.get("callee") or "") or "Map" in " ".join(t.get("gargs") or []) or "Map" in (t.get("resolved") or ""))
+    ck = [bi for bi, t in mir.calls(f) if is_member(t)]
+    for c, cbi in clos.items():
+        if any(is_member(t) for _, t in mir.calls(F.fns[c])):
+            ck.append(cbi)
+    missing = [bi for bi, si, st in mir.stmts(f) if st["rv"]["k"] == "agg" and st["rv"].get("adt") == "tx3_resolver::Error" and st["rv"]["variant"] == "MissingTxArg"]
+    missing_in_closure = [cbi for c, cbi in clos.items() if any(st["rv"]["k"] == "agg" and st["rv"].get("variant") == "MissingTxArg" for _, _, st in mir.stmts(F.fns[c]))]
     problems = []
-    if not fp:
-        problems.append("find_params is not called")
     if not aa:
-        raise BrokenCheck("safe_apply_args no longer calls apply_args: anchor changed")
-    if not ck or not nx:
-        problems.append("no loop testing args.contains_key(..) for each reported parameter")
-    if not missing:
+        raise BrokenCheck("resolve_tx (helpers inlined) no longer calls apply_args: anchor changed")
+    if not passc:
+        raise BrokenCheck("resolve_tx no longer calls its pass function")
+    if not fp:
+        problems.append("find_params is not called before the arguments are applied")
+    if not ck:
+        problems.append("no membership test of the argument map for the reported parameters")
+    if not missing and not missing_in_closure:
         problems.append("Error::MissingTxArg is never constructed")
     if not problems:
-        a = aa[0]
-        if not all(cfg.dominates(fp[0], a) for a in aa):
-            problems.append("apply_args is not dominated by find_params")
-        if not all(cfg.dominates(nx[0], a) for a in aa):
-            problems.append("apply_args can run without the parameter loop having been entered")
-        # the MissingTxArg block must not reach apply_args
+        for a in aa:
+            if not any(cfg.dominates(x, a) for x in fp):
+                problems.append("apply_args is not dominated by find_params")
+            if not any(a in cfg.reach_from(x) and any(x in cfg.reach_from(y) for y in fp) for x in ck):
+                problems.append("no membership test lies between find_params and apply_args")
         for mb in missing:
             if set(aa) & cfg.reach_from(mb):
                 problems.append("the MissingTxArg path continues to apply_args")
-        # contains_key result must decide between the MissingTxArg block and continuing
-        for cb in ck:
-            t = f["blocks"][cb]["t"]
-            nxt = t["t"]
-            # follow to the switch
-            seen = 0
-            while nxt is not None and f["blocks"][nxt]["t"]["k"] == "goto" and seen < 5:
-                nxt = f["blocks"][nxt]["t"]["t"]
-                seen += 1
-            tt = f["blocks"][nxt]["t"] if nxt is not None else None
-            if not tt or tt["k"] != "switch":
-                problems.append("contains_key result is not branched on")
+            if not any(cfg.dominates(x, mb) for x in ck):
+                problems.append("MissingTxArg is not the outcome of a membership test")
+        # apply_args must not dominate the refusal the other way round: the refusal comes first
+        for mb in missing:
+            if any(cfg.dominates(a, mb) for a in aa):
+                problems.append("MissingTxArg is decided only after apply_args has run")
+        # the refusal is conditional: from the membership test both the refusal and apply_args are reachable
+        for x in ck:
+            r = cfg.reach_from(x)
+            if missing and not (set(missing) & r):
                 continue
-            succ = mir.succs_of(tt)
-            to_missing = [s for s in succ if set(missing) & cfg.reach_from(s, avoid=[nx[0]])]
-            if not to_missing:
-                problems.append("no branch of the contains_key test leads to MissingTxArg")
-        # the key tested derives from the params iterator
+            if not (set(aa) & r):
+                problems.append("apply_args is unreachable after the membership test")
         du = mir.DefUse(f)
-        for cb in ck:
-            t = f["blocks"][cb]["t"]
-            if len(t["args"]) >= 2:
-                orig = mir.provenance(f, du, t["args"][1])
-                if not any(o.kind == "call" and "next" in o.callee for o in orig):
-                    problems.append("the key tested by contains_key does not come from the reported-parameter iteration: %r" % orig)
+        # the name reported comes from the reported-parameter collection, not from a constant
+        for bi, si, st in mir.stmts(f):
+            rv = st["rv"]
+            if rv["k"] == "agg" and rv.get("variant") == "MissingTxArg" and "key" in (rv.get("fields") or []):
+                o = mir.provenance(f, du, rv["ops"][rv["fields"].index("key")])
+                if o and all(x.kind == "const" for x in o):
+                    problems.append("MissingTxArg names a constant instead of the missing parameter")
+    problems = sorted(set(problems))
     if problems:
         res.add([finding("S-GUARD", key, w, "; ".join(problems))])
     else:
-        res.add([ok("S-GUARD", key, w, "find_params -> for each key: !contains_key -> Err(MissingTxArg) ; apply_args only after the loop")])
-    # resolve_tx applies args only through safe_apply_args
+        res.add([ok("S-GUARD", key, w, "find_params -> membership test of the argument map -> Err(MissingTxArg) on a path that never reaches apply_args; apply_args dominated by both (helpers inlined: %s)" % ", ".join(x.split("::")[-1] for x in f.get("inlined", [])))])
+    # every apply_args call of the resolver sits in that guarded prefix, and the pass function runs only after it
     cg = CallGraph(F)
-    root = "tx3_resolver::resolve_tx"
-    reach = cg.reachable([root])
+    reach = cg.reachable([lf])
+    inl = set(f.get("inlined", [])) | {lf, lf + "::{closure#0}"}
     direct = []
     for p in reach:
-        if not p.startswith("tx3_resolver::"):
+        if not p.startswith("tx3_resolver::") or p in inl:
             continue
         g = F.fns[p]
         for bi, t in mir.calls(g):
             if call_matches(t, "tx3_tir::reduce::apply_args") or is_trait_call(t, APPLY, "apply_args"):
-                if p != "tx3_resolver::safe_apply_args":
-                    direct.append(p)
-    body = F.body(root)
-    safe_calls = [bi for bi, t in mir.calls(body) if call_matches(t, "tx3_resolver::safe_apply_args")]
-    evalp = [bi for bi, t in mir.calls(body) if call_matches(t, "tx3_resolver::eval_pass")]
-    key2 = root + "|args only through safe_apply_args"
+                direct.append(p)
+    key2 = lf + "|arguments are applied only behind the guard"
     if direct:
-        res.add([finding("S-GUARD", key2, where(body), "apply_args is called outside safe_apply_args in: " + ", ".join(sorted(set(direct))))])
-    elif not safe_calls or not evalp:
-        res.add([finding("S-GUARD", key2, where(body), "resolve_tx does not call safe_apply_args before eval_pass")])
+        res.add([finding("S-GUARD", key2, where(f), "apply_args is also called outside the guarded prefix of resolve_tx, in: " + ", ".join(sorted(set(direct))))])
+    elif all(any(cfg.dominates(a, e) for a in aa) for e in passc):
+        res.add([ok("S-GUARD", key2, where(f), "the guarded apply_args dominates every call of the pass function; no other apply_args call in the resolver")])
     else:
-        c2 = mir.CFG(body)
-        if all(c2.dominates(safe_calls[0], e) for e in evalp):
-            res.add([ok("S-GUARD", key2, where(body), "safe_apply_args dominates every eval_pass call; no other apply_args call in the resolver")])
-        else:
-            res.add([finding("S-GUARD", key2, where(body), "eval_pass is reachable without safe_apply_args")])
+        res.add([finding("S-GUARD", key2, where(f), "the pass function is reachable without the guarded apply_args")])
 
 
 def f_norm(F, res):
